@@ -79,6 +79,18 @@ PROGRAMS = {
     "await-in-loop-of-async": "async function one(k){ return k + (await order(k)); } let r = ''; for (const k of ['a', 'b']) { r += await one(k); } r",
     "three-sequential": "const a = %s; const b = %s; const c = %s; [a, b, c].join()" % (A, B, C),
     "promise-all-two": "const r = await Promise.all([order('a'), order('b')]); r.join()",
+    # caller-frame state while a CALLEE is the one that suspends (two or more frames saved; every frame has
+    # its own pending completion / handled exception / block scopes / this)
+    "caller-in-finally-pending-return": "const L = []; async function inner(){ const v = %s; return 'inner:' + v; } async function outer(){ try { return 'from-try'; } finally { L.push(await inner()); L.push('finally-done'); } } const r = await outer(); L.join() + ' => ' + r" % A,
+    "caller-in-finally-pending-throw": "const L = []; async function inner(){ const v = %s; return 'inner:' + v; } async function outer(){ try { throw 'X'; } finally { L.push(await inner()); } } let r; try { r = await outer(); } catch (e) { r = 'caught:' + e; } L.join() + ' => ' + r" % A,
+    "callee-in-finally-pending-return": "const L = []; async function inner(){ try { return 'iv'; } finally { L.push(%s); } } async function outer(){ try { L.push(await inner()); } finally { L.push('of'); } return 'o'; } const r = await outer(); L.join() + ' => ' + r" % A,
+    "both-frames-pending": "const L = []; async function inner(){ try { return 'iv'; } finally { L.push(%s); } } async function outer(){ try { return 'ov'; } finally { L.push(await inner()); } } const r = await outer(); L.join() + ' => ' + r" % A,
+    "caller-in-catch-callee-suspends": "const L = []; async function inner(){ return %s; } async function outer(){ try { throw 'E1'; } catch (e) { const v = await inner(); return e + ':' + v; } } await outer()" % A,
+    "caller-pending-break-callee-suspends": "async function inner(){ return %s; } async function outer(){ let r = ''; for (let i = 0; i < 3; i++) { try { if (i == 1) break; r += i; } finally { r += await inner(); } } return r; } await outer()" % A,
+    "sync-caller-in-finally-blocking-callee": "const L = []; function inner(){ return order('a'); } function outer(){ try { return 'from-try'; } finally { L.push(inner()); L.push('fd'); } } const r = outer(); L.join() + ' => ' + r",
+    "sync-caller-pending-throw-blocking-callee": "const L = []; function inner(){ return order('a'); } function outer(){ try { throw 'X'; } finally { L.push(inner()); } } let r; try { r = outer(); } catch (e) { r = 'caught:' + e; } L.join() + ' => ' + r",
+    "three-frames-middle-pending": "const L = []; async function c(){ return %s; } async function b(){ try { return 'bv'; } finally { L.push(await c()); } } async function a(){ const x = await b(); L.push('a:' + x); return x; } const r = await a(); L.join() + ' => ' + r" % A,
+    "caller-block-scope-and-this": "class K { tag = 'T'; async inner(){ return %s; } async outer(){ let s = 'o'; { let s = 'blk'; const v = await this.inner(); s += v; return this.tag + s; } } } await new K().outer()" % A,
     "await-non-promise-between": "const a = %s; const z = await 5; const b = %s; a + z + b" % (A, B),
 }
 
@@ -89,6 +101,8 @@ NESTED = ("getter-callee", "promise-ctor-order", "then-chain", "order-in-callbac
 def cluster_of(name, src, head):
     if name in NESTED:
         return "order()/await inside a callback that a native runs in a nested VM (getter, Promise executor, then-callback, array callback) cannot suspend"
+    if name.startswith("markers-from-callback") and "Promise.all" in src:
+        return "Promise.all over order markers obtained from a native callback (Array.from(xs, order)) treats the markers as plain values"
     if "Promise.any" in src:
         return "Promise.any over still-pending host promises never settles"
     if "Promise.allSettled" in src:
